@@ -1,5 +1,7 @@
 SPECIFICATION VSpec
-CONSTANT SweepEvery = 7
+CONSTANTS
+ SweepEvery = 23
+ PairFull = TRUE
 ACTION_CONSTRAINT VEmit
 INVARIANT RoundTripLaw
 CHECK_DEADLOCK FALSE
